@@ -25,6 +25,9 @@ import (
 
 func init() {
 	register("C10", genC10)
+	replayers["c10.ws"] = func(c *Ctx, m map[string]any) map[string]any {
+		return c12MembersOnly(c12Run(c, c12Texts(m["files"]), c12Texts(m["ups"])))
+	}
 	register("C11", genC11)
 	replayers["c10.hist"] = replayLoader
 	replayers["c11.hist"] = replayLoader
@@ -293,6 +296,16 @@ func (w *lWorld) write(u int, text *string) {
 	}
 }
 
+// writeKeepTime rewrites a file and gives it back the modification time it had (cp -p, rsync -t,
+// a restore from backup, file systems with coarse clocks): the new content is what counts.
+func (w *lWorld) writeKeepTime(u int, text *string) {
+	st, err := os.Stat(w.abs(u))
+	w.write(u, text)
+	if err == nil && text != nil {
+		_ = os.Chtimes(w.abs(u), st.ModTime(), st.ModTime())
+	}
+}
+
 // ---------------------------------------------------------------- implementation side
 
 func (w *lWorld) id(p string) any {
@@ -448,7 +461,11 @@ func (w *lWorld) runOps(texts []*string, ops []map[string]any) (impl, fresh []an
 			fresh = append(fresh, w.resJ(r, e))
 		case "edit":
 			u := num(op["p"])
-			w.write(u, subst(op["file"]))
+			if keep, _ := op["keep"].(bool); keep {
+				w.writeKeepTime(u, subst(op["file"]))
+			} else {
+				w.write(u, subst(op["file"]))
+			}
 			l.InvalidateFile(w.abs(u))
 			impl, fresh = append(impl, nil), append(fresh, nil)
 		case "silent":
@@ -691,6 +708,12 @@ func genC10(c *Ctx) {
 	r := c.R
 	loaderMode(c)
 	lWitnesses10(c)
+	// 0. the other resolver: a workspace keeps its resolved include tree up to date across
+	//    edits; after every update it must hold exactly the files reachable from the root
+	//    (op c10.ws: the member/order projection of the update histories of C12)
+	genC12Workspaces(c, 4, func(files []c12File, ups []c12File) {
+		c.Emit("c10.ws", c12MembersOnly(c12Run(c, files, ups)))
+	})
 	// 1. every directed graph on 1, 2, 3 files, plain spelling, root f0
 	for n := 1; n <= 3; n++ {
 		for bits := uint(0); bits < 1<<(uint(n*n)); bits++ {
@@ -860,7 +883,14 @@ func genC11(c *Ctx) {
 						s.Edges = specs[u].Edges
 					}
 					_, fj := w.render(u, s)
-					ops = append(ops, map[string]any{"k": kind, "p": u, "file": fj})
+					o := map[string]any{"k": kind, "p": u, "file": fj}
+					if kind == "edit" && exists[u] && r.IntN(2) == 0 {
+						// same modification time as before (and, with the includes kept and a
+						// version number of the same width, the same size): only the content differs
+						o["keep"] = true
+						c.Count("op.edit.keep-mtime")
+					}
+					ops = append(ops, o)
 					exists[u] = true
 					c.Count("op." + kind)
 				}
